@@ -10,6 +10,7 @@ model by Interval / lra inside Coq.  Search: direct executable statement of the
 property on the implementation.
 """
 
+import json
 import math
 import os
 import re
@@ -845,3 +846,64 @@ def run(ctx):
         "admits low_hz in (Nyquist, Nyquist+1): not valid, see NOTES.md)",
     ]
     return C.finish(ctx, "proof")
+
+
+def _unshort(d):
+    """Rebuild a bank configuration from its recorded (JSON) form."""
+    cfg = {k: v for k, v in d.items() if k not in ("scale", "scale_params")}
+    name = d["scale"]
+    if name in ("mel", "bark"):
+        cfg["scale"] = dict(name=name, arg=name, h2s=name + "_h2s", s2h=name + "_s2h")
+    elif name == "linear":
+        lo, m = d["scale_params"]
+        cfg["scale"] = dict(name=name, arg=dict(name="linear", low_hz=lo, slope_hz=m), params=[lo, m],
+                            h2s="(linear_h2s %s %s)" % (q(lo), q(m)), s2h="(linear_s2h %s %s)" % (q(lo), q(m)))
+    else:
+        (lo,) = d["scale_params"]
+        cfg["scale"] = dict(name=name, arg=dict(name="octave", low_hz=lo), params=[lo],
+                            h2s="(octave_h2s %s)" % q(lo), s2h="(octave_s2h %s)" % q(lo))
+    return cfg
+
+
+def replay(ctx, rp):
+    """Re-run exactly the recorded case on the implementation (and, for a certified
+    comparison, on the model)."""
+    C.ensure_impl_path()
+    import importlib
+
+    import numpy as np
+
+    F = importlib.import_module("pydrobert.speech.filters")
+    S = importlib.import_module("pydrobert.speech.scales")
+    f = rp["failure"]["replay"]
+    inp = f.get("input") or f.get("case") or {}
+    bad = []
+    if "range" in inp:
+        g = inp["range"]
+        out = run_range(F, g)
+        print("range %r -> %s (must reject: %s)" % (g, out, must_reject(g)))
+        return 1 if (must_reject(g) and out != "reject") else 0
+    if "config" in inp:
+        cfg = _unshort(inp["config"])
+        bank = check_bank(ctx, F, S, np, cfg, bad, deep=False)
+        n = cfg["n"]
+        if bank is not None:
+            # the deep clauses on every filter of this one bank
+            for i in range(n):
+                ctx.rng.seed(i)
+            check_bank(ctx, F, S, np, cfg, bad, deep=True)
+            if inp.get("kind") and regenerate(ctx):
+                G = Goals()
+                bank_goals(ctx, F, S, np, cfg, bank, G)
+                okb, _ = C.coq_make(["lib/C05_Cert.v"])
+                if okb and G.items:
+                    ans, log = C.coq_eval(ctx, "replay", "".join(x[0] for x in G.items), REQ + unfold_tactic(), timeout=1200)
+                    print("model comparison (%d goals): %s" % (len(G.items), "certified" if ans is not None else "NOT certified\n" + log[-800:]))
+                    if ans is None:
+                        bad.append(("model_comparison", {}))
+        for name, detail in bad[:10]:
+            print("VIOLATED %s: %r" % (name, detail))
+        print("replayed %r: %d violated clause(s)" % (inp["config"], len(bad)))
+        return 1 if bad else 0
+    print(json.dumps(rp, indent=1)[:4000])
+    return 0
